@@ -445,20 +445,33 @@ class Checker:
         if ev["phase"] == "begin":
             if "val" in ev and ev["val"] is not None:
                 self.val = ev["val"]
+            self.quiet_step = None
             if op == "construct":
                 self.expect_construct = True
-                if ev.get("stored") is None and not self.spec.get("any_async"):
-                    self._begin_drain("__construct__", {"tok": "__initial__", "event": "__initial__"})
+                self.queue.clear()
+                self.stack = []
+                if ev.get("stored") is not None:
+                    self.state = ev["stored"]
+                    self.quiet_step = "C11.resume-untouched"
+                else:
+                    self.state = None
+                    self.initial_override = ev.get("start")
+                    if not self.spec.get("any_async"):
+                        self._begin_drain("__construct__", {"tok": "__initial__", "event": "__initial__"})
             elif op == "activate":
                 if self.state is None:
                     self._begin_drain("__activate__", {"tok": "__initial__", "event": "__initial__"})
                 else:
-                    self.draining_none = True
+                    self.quiet_step = "C11.reactivation-noop"
             elif op == "add_listener":
                 pass
         else:
             if op in ("construct", "activate"):
+                quiet = self.quiet_step
+                self.quiet_step = None
                 exc = {"type": ev["exc"], "msg": ev.get("exc_msg")} if ev.get("exc") else None
+                if quiet and exc is not None:
+                    self.rej(quiet, f"{op} raised {ev.get('exc')}: {ev.get('exc_msg')}")
                 if self.draining:
                     self._end_drain(ev, exc=exc)
                 elif exc is not None:
@@ -468,11 +481,23 @@ class Checker:
                     self.active.add(p)
             if op == "probe":
                 self._probe(ev)
+            if op == "write":
+                if ev.get("valid", True):
+                    if ev.get("exc"):
+                        self.rej("C10.valid-write", f"write of a valid value ({ev['wkind']} -> {ev.get('target')}) raised {ev['exc']}: {ev.get('exc_msg')}")
+                    self.state = ev["target"]
+                    self.stats["external_writes"] = self.stats.get("external_writes", 0) + 1
+                else:
+                    if ev.get("exc") != "InvalidStateValue":
+                        self.rej("C10.unmapped-rejected", f"unmapped value written through {ev['wkind']}: outcome {ev.get('exc')}, expected InvalidStateValue")
+                    self.stats["invalid_writes"] = self.stats.get("invalid_writes", 0) + 1
 
     last_landed_exc = None
 
     def _probe(self, ev):
         if self.state is None:
+            if ev.get("model_is_users") is False:
+                self.rej("C10.users-model", "sm.model is not the model object supplied by the user")
             return
         if ev.get("cur") != self.state:
             self.rej("C01.state-after-event", f"current_state is {ev.get('cur')} but reference says {self.state}")
@@ -488,6 +513,12 @@ class Checker:
         if "active" in ev and ev["active"] is not None:
             if ev["active"] != [self.state]:
                 self.rej("C10.one-active", f"is_active states {ev['active']} != [{self.state}]")
+        if ev.get("csv") is not None and ev["csv"] != exp_field:
+            self.rej("C10.model-field", f"current_state_value {ev['csv']} != {exp_field}")
+        if ev.get("cs_value") is not None and ev["cs_value"] != exp_field:
+            self.rej("C10.model-field", f"current_state.value {ev['cs_value']} != {exp_field}")
+        if ev.get("model_is_users") is False:
+            self.rej("C10.users-model", "sm.model is not the model object supplied by the user")
 
     # ---- drains
     def _begin_drain(self, owner_tok, first_item=None):
@@ -659,6 +690,7 @@ class Checker:
             self.after_failure = False
 
     propagating = None
+    quiet_step = None
 
     # ---- callbacks
     def _locate_ctx_for(self, tok, cid, ev):
@@ -673,6 +705,8 @@ class Checker:
             return "masked"
         if ctx is not None and ctx.failing and ctx.tok == tok and cid in ctx.fail_phase_set:
             return "masked"
+        if getattr(self, "quiet_step", None) and not self.draining and not self.stack:
+            self.rej(self.quiet_step, f"callback {cid} ran although the machine already holds a state (nothing to activate)")
         if self.rtc:
             if ctx is None or ctx.tok != tok:
                 if not self.draining:
